@@ -374,22 +374,36 @@ def main():
 
 
 def downgrade_uncontracted(failures, report, lm, text):
-    """a failed obligation inside a function that calls a repository function without a contract (a helper that is new
-    to this framework) is undecided, not a violation: the caller was verified against no specification of the callee"""
+    """a failed obligation is *undecided*, not a violation, when the verifier had no specification to go by:
+       (a) the function calls a repository function without a contract (a helper that is new to this framework);
+       (b) the function contains an un-annotated closure whose result matters (Verus derives nothing from such a
+           closure; rules R16/R17 remove the common shapes, the error-building closures of map_err/ok_or_else are
+           irrelevant to every clause)."""
     unknown = [f['qname'].split('::')[-1] for f in report['functions']
                if not f['contracted'] and not f['qname'].startswith(('common::ContractAction', 'error::', 'common::<From'))]
-    if not unknown:
-        return failures, []
     lines = text.split('\n')
     keep, down = [], []
+    cache = {}
     for f in failures:
         fn = next((x for x in lm.functions if x['qname'] == f.get('function')), None)
         body = '\n'.join(lines[fn['line_start'] - 1:fn['line_end']]) if fn else ''
         hit = [u for u in unknown if re.search(r'(?<![\w.])%s\s*\(' % re.escape(u), body)]
+        key = f.get('function')
+        if key not in cache:
+            try:
+                cache[key] = gen.unannotated_value_closures(body) if body else []
+            except Exception:  # noqa
+                cache[key] = []
         if hit:
             g = dict(f)
             g['kind'] = 'uncontracted-callee'
             g['message'] = 'calls %s, which has no contract in /verif/contracts; %s' % (', '.join(hit), f['message'])
+            down.append(g)
+        elif cache[key]:
+            g = dict(f)
+            g['kind'] = 'unannotated-closure'
+            g['message'] = ('contains a closure the verifier derives nothing from (%s); %s'
+                            % ('; '.join('.%s(%s)' % (m, sn.replace('\n', ' ')) for m, sn in cache[key][:2]), f['message']))
             down.append(g)
         else:
             keep.append(f)
@@ -559,7 +573,7 @@ def finish(prop, tier, seed, results, t_start, extra=None):
         for u in r['undecided']:
             fq = (u.get('function') or '').split('#')[0]
             if fq in fns or u['kind'] == 'rlimit' and (not fq or fq in fns) or \
-                    (u['kind'] == 'uncontracted-callee' and relevant(u.get('props', []), prop)):
+                    (u['kind'] in ('uncontracted-callee', 'unannotated-closure') and relevant(u.get('props', []), prop)):
                 undecided_msgs.append('%s: %s in %s: %s' % (mode, u['kind'], u.get('function'), u['message'][:200]))
         vj = (r['res']['json'] or {}).get('verification-results', {})
         per_mode[mode] = {'verified': vj.get('verified'), 'errors': vj.get('errors'),
